@@ -322,6 +322,15 @@ Theorem C06_ti_estimator_lagged_system_force : forall (c : @ticfg R) (p i : @tii
 Proof. exact ti_lagged_sample_is_system_force. Qed.
 Print Assumptions C06_ti_estimator_lagged_system_force.
 
+(* energy_difference (replica exchange entry point colvarmodule::energy_difference) of a harmonic restraint with fixed
+   parameters: the alternative energy minus the current one, both in closed form (rediff never touches the state) *)
+Theorem C06_energy_difference : forall (c : @rcfg R) (s : @rstate R) (v : @var R) (x ce k' ce' : R),
+  c_kind c = Harmonic -> c_vars c = [v] -> s_centers s = [ce] -> (v_width v <> 0)%R -> v_periodic v = false ->
+  rediff Rops c s [x] (Some k') (Some [ce']) =
+  (k' / (2 * v_width v ^ 2) * (x - ce') ^ 2 - s_k s / (2 * v_width v ^ 2) * (x - ce) ^ 2)%R.
+Proof. exact rediff_harmonic_closed. Qed.
+Print Assumptions C06_energy_difference.
+
 (* ---- non-vacuity and regression examples (rational carrier, vm_compute) ------------------------- *)
 (* a 3-stage lambda schedule run in one segment reaches the last stage with the last force constant *)
 Example C06_example_three_stages :
